@@ -32,6 +32,9 @@ def base_configs(tier):
         dict(base, sym=['ids'], curated=True, label='probe00', factor=1.0, wm='I'),
         dict(base, sym=['ids'], curated=True, label='', factor=0.5, wm='diag', optional={'pc_features': 'no'}),
         dict(base, sym=['channels'], label='', factor=1.0, wm='I', merged=[2, 1], optional={'pc_features': 'no'}),
+        # probe table stored in 8 bits, raw channel ids beyond 255 (a 384-channel probe)
+        dict(base, sym=['channels'], label='', factor=1.0, wm='I', merged=[2, 1], optional={'pc_features': 'no'},
+             probe_dtype='uint8', om_hi=400),
         dict(base, nc=4, sym=['channels'], label='', factor=1.0, wm='I', merged=[1, 2, 1],
              optional={'pc_features': 'no'}),
         dict(base, sym=['spikes'], label='', factor=1.0, wm='I', raw=True, ncd=4, optional={'raw': 'yes'},
